@@ -304,7 +304,7 @@ PROPS = {
         "jobs": [
             {"name": "c19-regress", "pkg": HOOKS, "tests": ["TestVerifC19Regressions"]},
             {"name": "c19-single", "pkg": HOOKS, "tests": ["TestVerifC19SingleCallExhaustive"], "shards": {"quick": 8, "thorough": 8}, "timeout": {"quick": 900, "thorough": 3000}},
-            {"name": "c19-sched2", "pkg": HOOKS, "tests": ["TestVerifC19Schedules2", "TestVerifC19ExpireInFlight", "TestVerifC19CacheEntries"]},
+            {"name": "c19-sched2", "pkg": HOOKS, "tests": ["TestVerifC19Schedules2", "TestVerifC19ExpireInFlight", "TestVerifC19CacheEntries", "TestVerifC19EtagReuse"]},
             {"name": "c19-timeouts", "pkg": HOOKS, "tests": ["TestVerifC19Timeouts", "TestVerifC19EtagConfig"]},
             {"name": "c19-default-timeout", "pkg": HOOKS, "tests": ["TestVerifC19DefaultTimeout"]},
             {"name": "c19-sched3", "pkg": HOOKS, "tests": ["TestVerifC19Schedules3"], "checks": {"quick": 3000, "thorough": 100}, "shards": {"quick": 2, "thorough": 12}, "timeout": {"quick": 900, "thorough": 3000}},
@@ -346,7 +346,7 @@ RULE_ADDENDA = {
     "C16": "Also generated: target deletion, target replacement and a stale target cache between syncs; selectors as matchExpressions; empty-string patch values; every target write is judged on the live object before/after it (UID, spec, foreign metadata).",
     "C17": "Carriers now include the C08 and C09 generators (with stored ControllerRevisions relisted in another order). The concurrent-vs-sequential comparison includes the related-informer subscription counts and the related map of every hook call. Parents in two namespaces.",
     "C18": "Also generated: failed subscribes to a resource discovery does not know yet (installed later); a handler still replaying while an object appears; widgets subscribed through a second served version with the delivered apiVersion checked; handlers with their own resync take 3 ms per event; every informer call runs under a 10 s watchdog. An object deleted and re-created under the same name; at most three watch breaks per case (the reflector's pause doubles). The next LIST after a watch break answered 404 once.",
-    "C19": "Single calls also vary what the cache was warmed with (well-formed, unknown field, duplicate field); cache entries: first answer (200, 200 cut off mid-body, 500/404 with an ETag, undecodable 200) x second call about the same parent / another kind / namespace / name x 304/412/200. Calls may repeat their request (answered by the scripted server on its own with current content or a decodable error page, outcome judged). ETag entries that expire before the second call (timeout shorter / longer than the cleanup interval, real constructor); a never-answering hook under an unset, zero and negative timeout (bounded by the 10 s default).",
+    "C19": "Single calls also vary what the cache was warmed with (well-formed, unknown field, duplicate field); cache entries: first answer (200, 200 cut off mid-body, 500/404 with an ETag, undecodable 200) x second call about the same parent / another kind / namespace / name x 304/412/200. Calls may repeat their request (answered by the scripted server on its own with current content or a decodable error page, outcome judged). ETag entries that expire before the second call (timeout shorter / longer than the cleanup interval, real constructor); a never-answering hook under an unset, zero and negative timeout (bounded by the 10 s default). Call sequences against a server whose content changes with a new ETag, changes while keeping the ETag, or stays (304/412).",
     "C20": "Also generated: a customize hook that names related resources, with the related LIST or the customize webhook hanging while the controller is stopped. Reconcile runs under a 30 s watchdog. The status-subresource gate on generated multi-version CRDs (1-3 versions, storage flag, status per version): the version the controller names decides.",
     "C05": "Also generated: List-maps unique under the merge key that takes precedence and repeated under a later one (one volume mounted at two paths). Explicit nulls in observed system metadata fields and status.",
 }
